@@ -51,7 +51,7 @@ REAL_VS_STUB = {
 PROBES = ["reader_blocked_by_writer", "writer_blocked", "three_or_more_polling", "timeout_fired", "stale_handle_rescan",
           "session_failed_user_exc", "session_failed_encoder_exc", "session_failed_dup_at_put", "session_failed_dup_at_flush",
           "session_failed_io_error", "queue_nonempty_after_failed_session", "same_path_two_spellings", "two_libraries",
-          "pickled_handle", "create_race", "reader_saw_maybe_record"]
+          "pickled_handle", "create_race", "reader_saw_maybe_record", "molecule_library_payload", "failed_put_caught_session_continues"]
 
 SPELLINGS = ["{n}", "./{n}", "sub/../{n}", "{cwd}/{n}"]
 
@@ -69,8 +69,34 @@ def dec(b):
     return msgpack.loads(b)
 
 
-def value(tag, n):
-    return {"t": tag, "p": (f"<{tag}>".encode() * (n // 3 + 1))[:n]}
+def value(tag, n, payload="dict"):
+    v = {"t": tag, "p": (f"<{tag}>".encode() * (n // 3 + 1))[:n]}
+    if payload == "mol":
+        v["c"] = ((float(tag % 7), 0.0, 0.0), (0.0, 1.0, 0.0), (0.0, 0.0, float(1 + tag % 3)))
+    return v
+
+
+def to_payload(v, payload, key="m"):
+    """What is actually stored: the dict itself (msgpack-encoded Collection) or a real Molecule (MoleculeLibrary)."""
+    if payload != "mol":
+        return v
+    import molli as ml
+
+    m = ml.Molecule(n_atoms=3, name=key)
+    for a, e in zip(m.atoms, ("O", "H", "H")):
+        a.element = ml.Element[e]
+    m.coords[:] = v["c"]
+    m.attrib["t"] = v["t"]
+    m.attrib["p"] = v["p"]
+    return m
+
+
+def norm(obj, payload):
+    """Back to the plain dict the oracle works on."""
+    if payload != "mol":
+        return obj
+    return {"t": obj.attrib.get("t"), "p": obj.attrib.get("p"),
+            "c": tuple(tuple(float(x) for x in row) for row in obj.coords)}
 
 
 def pre_checks(tier):
@@ -113,7 +139,7 @@ def gen_plan(r, tier, index):
             h = r.randrange(nh)
             ro = handles[h]["readonly"]
             kind = "r" if ro or r.random() < 0.35 else "w"
-            sess = {"h": h, "kind": kind, "think": r.choice([0, 0, 0.001, 0.01, 0.05, 0.3]),
+            sess = {"h": h, "kind": kind, "catch": r.random() < 0.3, "think": r.choice([0, 0, 0.001, 0.01, 0.05, 0.3]),
                     "timeout": r.choice([None, None, None, None, 0.0, 0.02, 0.15, 1.0]), "ops": []}
             if kind == "w":
                 for _ in range(r.choice([1, 1, 2, 3, 4])):
@@ -166,7 +192,7 @@ def gen_plan(r, tier, index):
                            "nth": r.choice([1, 1, 2, 3]), "phase": f"s{si}:" + r.choice(["exit", "exit", "body"]),
                            "arg": r.randrange(1, 5000)})
     plan = {
-        "check": CHECK, "bufsize": r.choice([8192, 4096, 4096, 65536, 64]),
+        "check": CHECK, "bufsize": r.choice([8192, 4096, 4096, 65536, 64]), "payload": r.choice(["dict", "dict", "dict", "mol"]),
         "nlibs": nlibs, "create_race": create_race, "procs": procs, "faults": faults,
         "latency": r.choice([0, 0, 0, 0.0005, 0.004]),
         "sched": {"seed": r.randrange(1 << 30),
@@ -182,15 +208,22 @@ def _libname(i):
     return f"lib{i}.ukv"
 
 
+_PAYLOAD = ["dict"]   # payload mode of the run in progress (one run at a time per interpreter)
+
+
 def _mk(path, readonly, cb):
     from molli.storage import Collection, UkvCollectionBackend
 
+    if _PAYLOAD[0] == "mol":
+        import molli as ml
+
+        return ml.MoleculeLibrary(path, readonly=readonly, bufsize=cb)
     return Collection(path, UkvCollectionBackend, value_encoder=enc, value_decoder=dec, readonly=readonly, bufsize=cb)
 
 
 class _Sess:
     __slots__ = ("pid", "idx", "lib", "kind", "hkey", "invoke", "ret", "b0", "b1", "outcome", "exc", "puts", "put_results",
-                 "reads", "listings", "fault", "queue_left", "leak", "timeout", "cb")
+                 "reads", "listings", "fault", "queue_left", "leak", "timeout", "cb", "caught")
 
     def __init__(self):
         self.invoke = self.ret = self.b0 = self.b1 = None
@@ -203,6 +236,16 @@ class _Sess:
         self.fault = None
         self.queue_left = 0
         self.leak = None
+        self.caught = 0
+
+    def good_puts(self):
+        """puts that returned without raising (in an ok session these are the committed ones)"""
+        ok = [r == "ok" for (_k, r) in self.put_results] + [False] * (len(self.puts) - len(self.put_results))
+        return [pv for pv, g in zip(self.puts, ok) if g]
+
+    def bad_puts(self):
+        ok = [r == "ok" for (_k, r) in self.put_results] + [False] * (len(self.puts) - len(self.put_results))
+        return [pv for pv, g in zip(self.puts, ok) if not g]
 
 
 def run_plan(plan, trace=False):
@@ -223,6 +266,10 @@ def run_plan(plan, trace=False):
 
 def _run_plan(plan, trace=False):
     res = RunResult()
+    payload = plan.get("payload", "dict")
+    _PAYLOAD[0] = payload
+    if payload == "mol":
+        res.stats["probe:molecule_library_payload"] += 1
     kern = K.Kernel(bufsize=plan["bufsize"])
     kern.max_events = 300000
     lat = plan.get("latency", 0)
@@ -331,17 +378,29 @@ def _run_plan(plan, trace=False):
             for op in sp["ops"]:
                 o = op["op"]
                 if o == "put":
-                    v = value(*op["v"])
+                    v = value(*op["v"], payload)
                     S.puts.append((op["k"], v))
                     try:
-                        c[op["k"]] = v
-                    except KeyError:
-                        S.put_results.append((op["k"], "KeyError"))
+                        c[op["k"]] = to_payload(v, payload, op["k"])
+                    except K.SimCrash:
                         raise
+                    except Exception as e:  # noqa: BLE001
+                        S.put_results.append((op["k"], type(e).__name__))
+                        if not sp.get("catch") or S.cb > 0:
+                            # (with a deferring buffer an exception raised by put() may belong to an EARLIER queued item;
+                            #  which puts of such a session count as successful is not defined -> never carried on)
+                            raise
+                        # the caller catches the failed put and carries on with the session
+                        S.caught += 1
+                        continue
                     S.put_results.append((op["k"], "ok"))
                 elif o == "put_poison":
                     S.fault = "encoder_exc"
-                    c[op["k"]] = {"t": -1, "p": _Poison()}
+                    bad = {"t": -1, "p": _Poison()}
+                    if payload == "mol":
+                        bad = to_payload(value(1, 1, payload), payload, op["k"])
+                        bad.attrib["p"] = _Poison()      # the REAL molecule encoder (msgpack) rejects this attribute
+                    c[op["k"]] = bad
                 elif o == "raise":
                     S.fault = S.fault or "user_exc"
                     raise RuntimeError("injected user exception")
@@ -355,7 +414,7 @@ def _run_plan(plan, trace=False):
                     S.listings.append((i, ks))
                     vals = {}
                     for k in ks:
-                        vals[k] = c[k]
+                        vals[k] = norm(c[k], payload)
                     S.reads.append((i, vals))
                     S.listings.append((mark("list", S), sorted(c.keys())))
 
@@ -385,6 +444,7 @@ def _run_plan(plan, trace=False):
             pass
         final_images = {i: kern.image(_libname(i)) for i in range(plan["nlibs"]) if kern.norm(_libname(i)) in kern.files}
     _durability(plan, final_images, sessions, res)
+    _PAYLOAD[0] = "dict"
 
     # ---- stats / probes / digest
     c = kern.counters
@@ -405,6 +465,8 @@ def _run_plan(plan, trace=False):
     if any(len(v) > 1 for v in spell.values()):
         res.stats["probe:same_path_two_spellings"] += 1
     for S in sessions:
+        if S.caught:
+            res.stats["probe:failed_put_caught_session_continues"] += 1
         if S.outcome == "timeout":
             res.stats["probe:timeout_fired"] += 1
         if S.outcome == "exc":
@@ -593,13 +655,21 @@ def _oracles(plan, kern, sched, sessions, marks, res, limit_hit):
                     seen_in_sess.add(k)
                     if dup:
                         explained = True
+                if S.caught and not explained:
+                    bad = [r for r in S.put_results if r[1] != "ok"]
+                    res.violate("S-put-failed-without-cause", f"C04|S-unexplained-put-failure|{bad[0][1] if bad else '?'}",
+                                f"pid {S.pid} #{S.idx} (w): put results {S.put_results} although no fault was injected and no key conflicted")
+                    return
                 if S.outcome == "exc" and not explained:
                     res.violate("S-session-failed-without-cause", f"C04|S-unexplained-failure|{type(S.exc).__name__}",
                                 f"pid {S.pid} #{S.idx} (w) failed with {S.exc!r} although no fault was injected and no key conflicted")
                     return
                 if S.outcome == "ok":
                     seen = set()
-                    for (k, v) in S.puts:
+                    for (k, v) in S.bad_puts():
+                        if k not in committed:
+                            maybe.setdefault(k, set()).add(enc(v))
+                    for (k, v) in S.good_puts():
                         if k in committed and committed[k] != v:
                             res.violate("S-duplicate-put-accepted", "C04|S-dup-accepted",
                                         f"pid {S.pid} #{S.idx} completed although it put existing key {k!r}")
@@ -647,14 +717,15 @@ def _durability(plan, final_images, sessions, res):
             try:
                 c = _mk(K.SimPath(_libname(lib)), True, -1)
                 with c.reading():
-                    got = {k: c[k] for k in sorted(c.keys())}
+                    got = {k: norm(c[k], plan.get("payload", "dict")) for k in sorted(c.keys())}
             except Exception as e:  # noqa: BLE001
                 res.violate("D-final-library-unreadable", f"C04|D-unreadable|{type(e).__name__}", f"fresh process cannot read lib{lib}: {e!r}")
                 return
         committed, maybe, required = {}, {}, set()
         for S in sorted((S for S in sessions if S.lib == lib and S.kind == "w" and S.b0 is not None), key=lambda S: S.b0):
+            good = S.good_puts() if S.outcome == "ok" else []
             for (k, v) in S.puts:
-                if S.outcome == "ok":
+                if any(k == gk and v is gv for gk, gv in good):
                     if k in committed or (k in maybe):
                         maybe.setdefault(k, set()).add(enc(v))
                         required.add(k)
